@@ -588,16 +588,16 @@ def run(ctx):
 
     dw.feed(CORPUS_WL, 'corpus')
     ds.feed(CORPUS_SEQ if drv is not None else CORPUS_SEQ[:2], 'corpus')
-    nwl = 1500 if quick else 12000
+    nwl = 1200 if quick else 12000
     maxops = 70 if quick else 120
     cases = [gen_wl(ctx.rng, ctx.rng.randrange(20, maxops)) for _ in range(nwl)]
-    nseq = 1500 if quick else 30000
+    nseq = 1000 if quick else 30000
     scases = [gen_seq(ctx.rng, ctx.rng.randrange(3, 40), drv is None or ctx.rng.random() < .7) for _ in range(nseq)]
     if quick:
-        dw.feed(cases[:300]); ds.feed(scases[:300])
-        for i in range(300, nwl, 600):
+        dw.feed(cases[:250]); ds.feed(scases[:250])
+        for i in range(250, nwl, 600):
             dwp.feed(cases[i:i + 600])
-        dsp.feed(scases[300:])
+        dsp.feed(scases[250:])
     else:
         for i in range(0, nwl, 500):
             dw.feed(cases[i:i + 500])
